@@ -44,14 +44,20 @@ Alloc(w, v) == [id |-> Len(w.store) + 1, w |-> [w EXCEPT !.store = Append(@, v)]
 Get(w, env, n) == w.store[env[n]]
 Set(w, env, n, v) == [w EXCEPT !.store[env[n]] = v]
 
-\* value expressions -> [v, w]
+\* value expressions -> [v, w]   (evaluation order and effects as in Go)
+\*   lit(v) var(n) add(n,d)    obs(id,n) = r.V(id, n): logs <<"v", id, value>>
+\*   neg(e) = -e   paren(e) = (e)   w1(e) = r.W(e): a ONE-argument call, logs <<"w", value>>
+RECURSIVE EvalV(_, _, _)
 EvalV(ve, env, w) ==
   CASE ve.k = "lit" -> [v |-> ve.v, w |-> w]
     [] ve.k = "var" -> [v |-> Get(w, env, ve.n), w |-> w]
     [] ve.k = "add" -> [v |-> Get(w, env, ve.n) + ve.d, w |-> w]
     [] ve.k = "obs" -> LET x == Get(w, env, ve.n) IN [v |-> x, w |-> Log(w, <<"v", ve.id, x>>)]
+    [] ve.k = "neg" -> LET r == EvalV(ve.e, env, w) IN [v |-> 0 - r.v, w |-> r.w]
+    [] ve.k = "paren" -> EvalV(ve.e, env, w)
+    [] ve.k = "w1" -> LET r == EvalV(ve.e, env, w) IN
+                      IF Panicked(r.w) THEN r ELSE [v |-> r.v, w |-> Log(r.w, <<"w", r.v>>)]
 
-\* create an instance of generator g with arguments (a, b): no effects (C02)
 \* Collections: every generator instance owns the local collections that range loops
 \* iterate over (declared in the function's prolog by the renderer):
 \*   s   := []int{10,20,30} with capacity 4      arr := [3]int{10,20,30}
@@ -216,6 +222,9 @@ Run(i, w) ==
                               skip == s.k = "continue" /\ "KF04" \in w.flags /\ Head(kl).t = "loop" /\ IsYielding(Head(kl).post) IN
                           Run(i, SetK(w, i, (IF skip THEN <<>> ELSE PostFrames(Head(kl))) \o kl))
       [] s.k = "return" -> [st |-> "done", w |-> SetK(w, i, <<>>)]
+      [] s.k = "retx"   -> \* return <expr>: the operand is evaluated (and discarded), then the generator ends
+                           LET w1 == Log(w, <<"v", s.id, 0>>) IN
+                           IF Panicked(w1) THEN [st |-> "panic", w |-> w1] ELSE [st |-> "done", w |-> SetK(w1, i, <<>>)]
 
 \* ---------------------------------------------------------------- syntax helpers
 RECURSIVE HasY(_), HasYS(_)
